@@ -33,6 +33,7 @@ type HistInput struct {
 	StartFile string  `json:"start_file,omitempty"`
 	StartPos  uint64  `json:"start_pos,omitempty"`
 	Oracle   string   `json:"oracle"`
+	TCP      bool     `json:"tcp,omitempty"`
 }
 
 // Insert places a noise unit before event Slot of the base history's first file.
@@ -76,7 +77,7 @@ func checkGrouping(in HistInput) (string, int, int) {
 	if stop != nil {
 		return "generator error: history contains an unsupported event: " + stop.Why, 0, 0
 	}
-	out := Run(h, Opts{Start: start, ServerID: 77, LockStep: in.LockStep, KeepTx: true})
+	out := Run(h, Opts{Start: start, ServerID: 77, LockStep: in.LockStep && !in.TCP, KeepTx: true, TCP: in.TCP})
 	if out.Hung {
 		return "HUNG", len(served), len(exp)
 	}
@@ -99,7 +100,7 @@ func checkGrouping(in HistInput) (string, int, int) {
 			return fmt.Sprintf("delivery %d changed after it was delivered (re-read after the stream ended): %s", i, diff), len(served), len(exp)
 		}
 	}
-	if in.LockStep {
+	if in.LockStep && !in.TCP {
 		for i, d := range out.Deliveries {
 			ci := exp[i].CommitIndex
 			if d.Released < ci+1 {
